@@ -369,11 +369,73 @@ def r_keys(prog, R):
     r.info["binary_values"] = nb
 
 
+SCAN_FILES = ("src/lib/ares_addrinfo2hostent.c", "src/lib/ares_parse_into_addrinfo.c", "src/lib/ares_addrinfo_localhost.c")
+
+
+def r_fullscan(prog, R):
+    r = R.rule("R-C18-FULLSCAN", "conversion loops visit every element of the answer lists: a list walk ends only at the end of the list, at the caller's capacity or on an allocation failure", floor=6, analysis="loop-exit vocabulary")
+    n = 0
+    for f in sorted(prog.funcs.values(), key=lambda x: x.key):
+        if not (f.file.startswith("src/lib/legacy/") or f.file in SCAN_FILES):
+            continue
+        is_pred = (f.retw or f.ret) == "ares_bool_t"
+        for h, body in f.natural_loops().items():
+            br = f.branch(h)
+            if not br:
+                continue
+            walkers = set()
+            for b in body | {h}:
+                for el in f.blocks[b].els:
+                    if el["k"] == "asg" and strip(el["e"]["l"]).get("k") == "var":
+                        rr = strip(el["e"].get("r"))
+                        if rr is not None and rr.get("k") == "mem" and "next" in rr["f"] and is_var(strip(rr["b"]), strip(el["e"]["l"])["n"]):
+                            walkers.add(strip(el["e"]["l"])["n"])
+            if not walkers:
+                continue
+            n += 1
+            k = "fn=%s walk over %s" % (f.name, sorted(walkers)[0])
+            bad = None
+            for u in sorted(body | {h}):
+                b2 = f.branch(u)
+                for k2, v in enumerate(f.blocks[u].succs):
+                    if v is None or v in body or v == h:
+                        continue
+                    if b2 is None:
+                        continue
+                    okx = False
+                    for c3, p3 in atoms(b2[0], k2 == 0):
+                        op, l3, r3 = norm_cmp(c3, p3)
+                        l4 = strip(l3)
+                        txt = render(c3)
+                        # end of list
+                        if l4 is not None and l4.get("k") == "var" and l4["n"] in walkers and (op in ("false",) or (op == "==" and r3 is not None and is_null(r3))):
+                            okx = True
+                        # caller capacity
+                        if "req_naddrttls" in txt or "naddrttls" in txt:
+                            okx = True
+                        # allocation / lookup failure: `x == NULL`
+                        if (op == "==" and r3 is not None and is_null(r3)) or op == "false":
+                            if l4 is not None and not (l4.get("k") == "var" and l4["n"] in walkers):
+                                okx = True
+                        if "status" in txt and "ARES_SUCCESS" in txt:
+                            okx = True
+                    if is_pred:
+                        okx = True      # a search that answers yes/no may stop at the first hit
+                    if not okx:
+                        bad = (u, render(b2[0]))
+            if bad:
+                r.viol(k, f.name, f.loc((f.blocks[bad[0]].term or {}).get("ln", f.ln)), "%s stops walking the list when '%s': elements behind that point are never looked at, so the legacy result is not what the record API reports (e.g. a minimum over the alias chain that ignores later aliases)" % (f.name, bad[1]))
+            else:
+                r.ok(k, f.loc((f.blocks[h].term or {}).get("ln", f.ln)))
+    r.info["list_walks"] = n
+
+
 def run(prog, R, tier):
     R.assume("value equality between the legacy structs and the record API getters is not decided here")
     r_cap(prog, R)
     r_shape(prog, R)
     r_free(prog, R)
     r_keys(prog, R)
+    r_fullscan(prog, R)
     files = {f.file for f in prog.funcs.values() if f.file.startswith("src/lib/legacy/")} | {"src/lib/ares_addrinfo2hostent.c", "src/lib/ares_data.c"}
     ownrules.own_rule(prog, R, "R-C18-OWN", files, floor=10, include_contract=False)
